@@ -71,6 +71,7 @@ def dir_vec(v):
 
 
 def check(ctx):
+    del _DEFERRED[:]
     p = ctx.prog()
     tier = ctx.tier
     magics = {'BISHOP': p.val('engine::BISHOP_MAGICS'), 'ROOK': p.val('engine::ROOK_MAGICS')}
@@ -130,6 +131,12 @@ def check(ctx):
         ctx.analysed(wr)
         rk = _index_shape(rd, kind, reader=True)
         wk = _index_shape(wr, kind, reader=False)
+        if rk is None or wk is None:
+            # not judged here; the other rules still run (R9 tabulates what the builder loops write) and the stop is raised last
+            _DEFERRED.append('C11: the %s of the %s table indexes it in a form the rule does not know (neither '
+                             '`(blockers * MAGIC[sq]) >> (64 - BITS[sq])` on a subset of MASK[sq] nor a spelling of it the normal form covers)'
+                             % ('reader' if rk is None else 'writer', kind))
+            continue
         ctx.ob('C11.R2.index-agreement', kind, rk is not None and rk == wk,
                'the %s table is written and read through the same index expression (blockers*MAGIC[sq])>>(64-BITS[sq]) '
                'on a subset of MASK[sq], same table row/column roles' % kind,
@@ -359,6 +366,13 @@ def check(ctx):
     ctx.floor('C11.R7.witness', n_as, 18, 'static_asserts')
     builders(ctx, p)
     ctx.assume('attack(sq, occ) = attack(sq, occ & mask): the last square of a ray cannot shadow anything (geometry)')
+    if _DEFERRED:
+        msg = _DEFERRED[0]
+        del _DEFERRED[:]
+        raise AnalysisBroken(msg)
+
+
+_DEFERRED = []
 
 
 # ------------------------------------------------------------------------------------------------------
@@ -485,7 +499,8 @@ def _ray_attack_shape(f, dvals):
     by lsb (rays stepping to higher squares) or msb; independent of whether the choice is an if/else or a conditional expression"""
     tab = _ray_table(f)
     if tab is None:
-        return False, 'the result is not RAYS[ray][sq] & ~RAYS[ray][lsb|msb(blockers & RAYS[ray][sq])] for every ray'
+        raise AnalysisBroken('C11: %s does not return RAYS[ray][sq] & ~RAYS[ray][lsb|msb(blockers & RAYS[ray][sq])] in a spelling the rule '
+                             'knows; which blocker it picks per ray cannot be tabulated' % short(f.name))
     for ray in range(8):
         want = 'lsb' if dvals and dvals[ray] > 0 else 'msb'
         if tab[ray] != want:
